@@ -20,7 +20,7 @@
     FieldsOnCorrectType + ScalarLeafs + FragmentsOnCompositeTypes
                                  = 5.3.1 Field Selections + 5.3.3 Leaf Field Selections + 5.5.1.3 Fragments
                                    On Composite Types  (as a block only; documents with `docOK`: no
-                                   sub-selection below `__typename`, no field directive called `ifdef`)
+                                   sub-selection below `__typename`)
     PossibleFragmentSpreads      = 5.5.2.3 Fragment Spread Is Possible  (on top of the block; abstract types
                                    have at least one possible type)
   `c09_partial_typed`: with these hypotheses, rejected ↔ invalid restricted to 13 of the 22 rule structs
@@ -33,6 +33,12 @@
   The two statements that were OPEN are FALSE of the model as stated and are refuted by witnesses
   (`c09_refuted`, `c09_rule_equivalences_refuted`); `c09_rule_equivalences_served` is the corrected,
   proved form of the second; `c09_corrected` is the corrected form of the first and stays OPEN.
+  Two earlier counterexamples are no longer counterexamples of the toggle-free model:
+  the `ifdef` exemption of FieldsOnCorrectType is a defect of the pinned tree (toggle
+  `ifdefSkipsUnknownField`, finding C09-ifdef-skips-unknown-field, `c09_witness_ifdef`), and the
+  reference validator now judges variable DEFAULT values as the literals they are (§5.6.1: an enum
+  default needs an enum token), so the string default for an enum variable is one more witness of
+  `enumAcceptsString` (`c09_witness_enum_default`).
 
   OBLIGATION c09_dispatch
   OBLIGATION c09_dispatch_exact
@@ -71,8 +77,9 @@
   OBLIGATION c09_witness_schema_wellformed
   OBLIGATION c09_witness_schema_abstract_inhabited
   OBLIGATION c09_counterexample_two_operations
-  OBLIGATION c09_counterexample_ifdef
-  OBLIGATION c09_counterexample_enum_default
+  OBLIGATION c09_witness_ifdef
+  OBLIGATION c09_witness_enum_default
+  OBLIGATION c09_default_literal_enum
   OBLIGATION c09_refuted
   OBLIGATION c09_rule_equivalences_refuted
   OBLIGATION c09_rule_equivalences_served
@@ -368,7 +375,7 @@ theorem c09_rule_provided_non_null_arguments (hW : SchemaWF S) (hs : violates_Op
     = §5.3.1 Field Selections + §5.3.3 Leaf Field Selections + §5.5.1.3 Fragments On Composite Types.
     The three only correspond as a block (e.g. `__typename` below a scalar is §5.3.1 for the reference
     and `ScalarLeafs` for the implementation); well-formed registry, no sub-selection below
-    `__typename`, no field directive called `ifdef`. -/
+    `__typename`. -/
 theorem c09_rule_fields_leafs_composites (hW : SchemaWF S) (hD : docOK d = true)
     (hs : violates_OperationTypeExists S d = false) :
     (Kind.unknownField ∈ strictErrors S {} d vars o ∨ Kind.leafWithSel ∈ strictErrors S {} d vars o
@@ -527,7 +534,7 @@ def typedRules : List String :=
    "5.5.2.3 Fragment Spread Is Possible"]
 
 /-- PARTIAL c09, second stage: for well-formed registries and documents without sub-selections
-    below `__typename` / `ifdef` field directives, the equivalence extends to 13 of the 22 rule
+    below `__typename`, the equivalence extends to 13 of the 22 rule
     structs (+ walker + parser checks) against 18 of the 28 reference rules. -/
 theorem c09_partial_typed (hW : SchemaWF S) (hA : AbstractInhabited S) (hD : docOK d = true) :
     ((∃ k ∈ preErrors d, k ∈ provedPre) ∨ (∃ k ∈ strictErrors S {} d vars o, k ∈ provedKinds ++ typedKinds)) ↔
@@ -664,23 +671,47 @@ theorem c09_refuted : ¬ c09 := by
 
 /-- a schema with a user-defined directive called `ifdef` on fields -/
 def Sifdef : VSchema := { S0 with dirs := S0.dirs ++ [{ name := "ifdef", repeatable := false, locs := ["FIELD"], args := [] }] }
-/-- `{ nope @ifdef }`: `FieldsOnCorrectType` skips every field carrying a directive NAMED `ifdef`
-    (src/validation/rules/fields_on_correct_type.rs), so an unknown field is accepted -/
+/-- `{ nope @ifdef }`: the pinned `FieldsOnCorrectType` skips every field carrying a directive NAMED
+    `ifdef` (src/validation/rules/fields_on_correct_type.rs:28-32), so an unknown field is accepted
+    when the schema registers a directive of that name -/
 def dIfdef : Doc := q [] [fld "nope" [] [] none [{ name := "ifdef", args := [] }]]
 
-theorem c09_counterexample_ifdef :
-    (checkRules Sifdef {} dIfdef [] none).isRejected = false
+/-- witness of `ifdefSkipsUnknownField`: the pinned model accepts, the repaired model rejects,
+    and the reference validator reports exactly §5.3.1 -/
+theorem c09_witness_ifdef :
+    (checkRules Sifdef { ifdefSkipsUnknownField := true } dIfdef [] none).isRejected = false
+    ∧ (checkRules Sifdef {} dIfdef [] none).isRejected = true
     ∧ Spec.Validate.violations {} Sifdef dIfdef [] none = ["5.3.1 Field Selections"] := by
   decide +kernel
 
-/-- `query($c: Color! = "RED"){ color(c: $c) }`: the model (`is_valid_input_value` on the default)
-    refuses a string for an enum; the reference validator judges defaults with the coercion of
-    variable VALUES (`coerceOk`), which takes enum names as strings — here the reference is too lax -/
+/-- the same document with a KNOWN field is valid for everybody: the directive itself is legal -/
+example :
+    (checkRules Sifdef { ifdefSkipsUnknownField := true } (q [] [fld "pet" [] [fld "__typename"] none [{ name := "ifdef", args := [] }]]) [] none).isRejected = false
+    ∧ Spec.Validate.violations {} Sifdef (q [] [fld "pet" [] [fld "__typename"] none [{ name := "ifdef", args := [] }]]) [] none = [] := by
+  decide +kernel
+
+/-- `query($c: Color! = "RED"){ color(c: $c) }`: a default value is a literal of the document, so
+    §5.6.1 wants an enum token; the repaired model (`is_valid_input_value` on the default) and the
+    reference validator refuse the string, the pinned `is_valid_input_value` takes it -/
 def dEnumDefault : Doc := q [{ name := "c", ty := .nonNull (.named "Color"), default := some (.str "RED") }] [fld "color" [("c", .var "c")]]
 
-theorem c09_counterexample_enum_default :
-    rejects {} dEnumDefault = true ∧ specInvalid dEnumDefault = false := by
+theorem c09_witness_enum_default :
+    rejects { enumAcceptsString := true } dEnumDefault = false ∧ rejects {} dEnumDefault = true
+    ∧ specInvalid dEnumDefault = true := by
   decide +kernel
+
+/-- The reference validator on enum-typed defaults, for every schema and every default: a string or
+    any other non-enum, non-null constant is refused, an enum token is accepted exactly when it is a
+    value of the type — while the SAME string supplied as a variable VALUE coerces (§3.9 input
+    coercion of enums takes the name as a string in the transport format). -/
+theorem c09_default_literal_enum (S : VSchema) (n : String) (td : TypeDef)
+    (ht : Spec.Validate.tyDef S n = some td) (hk : td.kind = .enum) (e : String) :
+    Spec.Validate.litOk S Spec.Validate.valueFuel (.named n) (Spec.Validate.litOf (.str e)) = false
+    ∧ Spec.Validate.litOk S Spec.Validate.valueFuel (.named n) (Spec.Validate.litOf (.enum e)) = td.values.contains e
+    ∧ Spec.Validate.coerceOk S Spec.Validate.valueFuel (.named n) (.str e) = td.values.contains e := by
+  have hkind : Spec.Validate.kindIs S n .enum = true := by simp [Spec.Validate.kindIs, ht, hk]
+  refine ⟨?_, ?_, ?_⟩ <;>
+    simp [Spec.Validate.litOk, Spec.Validate.coerceOk, Spec.Validate.litOf, Spec.Validate.valueFuel, hkind, ht]
 
 /-- `mutation($a: Int, $a: Int){ ...Nope }` against a schema without a mutation type: the walker
     reports "not configured" and does not descend, so neither rule sees the operation -/
@@ -722,15 +753,14 @@ end
 
 -- ------------------------------------------------------------------ OPEN
 
-/-- what the three counterexamples and the per-rule analysis show must be excluded -/
+/-- what the counterexample and the per-rule analysis show must be excluded -/
 structure C09Hyp (S : VSchema) (d : Doc) (vars : List (String × GValue)) (o : Option String) : Prop where
   /-- the request selects an operation (else `ArgumentsOfCorrectType` judges the variables of all of them) -/
   selected : (Spec.Validate.selectedOp d o).isSome = true
-  /-- no directive is called `ifdef` -/
-  noIfdef : S.dir? "ifdef" = none
-  /-- defaults of variable definitions: model and reference validator agree (the reference accepts enum names as strings) -/
+  /-- defaults of variable definitions: `is_valid_input_value` and §5.6.1 agree on them (the
+      implementation does not look for repeated input-object field names) -/
   defaults : ∀ op ∈ d.ops, ∀ v ∈ op.vars, ∀ dv, v.default = some dv →
-    validInput S {} valueFuel v.ty dv = Spec.Validate.coerceOk S Spec.Validate.valueFuel v.ty dv
+    validInput S {} valueFuel v.ty dv = Spec.Validate.litOk S Spec.Validate.valueFuel v.ty (Spec.Validate.litOf dv)
   /-- registry well-formedness: root types are object types of the schema -/
   roots : ∀ t r, Spec.Validate.rootType S t = some r → Spec.Validate.kindIs S r .object = true
   /-- field types exist and are output types; `String` is a scalar -/
@@ -750,7 +780,6 @@ def c09_corrected : Prop :=
 /-- the exclusions are satisfiable: the witness schema with the non-trivial valid example -/
 example : C09Hyp S0 dValid [("v", .int 1), ("b", .bool true)] none where
   selected := by decide
-  noIfdef := by decide
   defaults := by simp [dValid, q]
   roots := by intro t r h; cases t <;> simp [Spec.Validate.rootType, S0] at h <;> subst h <;> decide
   fields := by decide
